@@ -252,7 +252,16 @@ def _pspace_sd(draw, dtype=None, power_only=True):
         sd = {'kind': 'pspace', 'parts': [base() for _ in range(n)],
               'power': None}
     else:
-        b = base()
+        if _one_in(draw, 4):
+            # 'square' power space: as many components as entries along the
+            # first axis of the base space, so that an operand of the base
+            # shape also matches the component axis in length
+            n = draw(st.integers(2, 3))
+            shp = [n] + ([draw(st.integers(1, 3))] if _one_in(draw, 3)
+                         else [])
+            b = draw(_tensor_sd(dtype, shp))
+        else:
+            b = base()
         if _one_in(draw, 6):
             b = {'kind': 'pspace', 'base': b, 'power': draw(
                 st.integers(1, 2)), 'weighting': None, 'exponent': 2.0}
